@@ -92,9 +92,15 @@ Definition out_of (li : linput) (o : outcome) : tree :=
   TL [TI (lres_code (o_res o)); match o_caps o with Some c => c | None => TL [] end; TI (o_packsize o); wire_tree (o_wire o);
       TL (map TB (plaintexts li o)); TI 0; TI 1].
 
+(* the password mode of the library's default configuration for a kind of connection description (tabulated by running
+   tds.NewLoginConfig on every combination of the settings, Gen/GenLogin.v) *)
+Definition default_encrypt (mask : Z) : Z :=
+  match find (fun p => fst p =? mask) g_default_encrypt with Some p => snd p | None => -2 end.
+
 Definition login_run (fn : Z) (i : tree) : tree :=
   match fn with
   | 30 | 31 | 32 => let li := linput_of i in out_of li (run_login li (li_cfg li))
+  | 33 => TL [TI (default_encrypt (t_int (t_nth 0 i)))]
   | _ => rx_fn_run fn i
   end.
 
@@ -151,5 +157,8 @@ Definition login_spec (fn : Z) (i o : tree) : bool :=
     (* C10 through the login: whatever the server's replies and key material are, Login returns (success or an error);
        it neither panics (class -1) nor stays in the call (class -2) *)
     (class =? 0) || (class =? 1) || (class =? 2)
+  | 33 =>
+    (* C09, "the default configuration": password encryption is negotiated whatever the connection description says *)
+    with_encryption (t_int (t_nth 0 o))
   | _ => rx_fn_spec fn i o
   end.
